@@ -28,6 +28,11 @@ WITHOUT the part fields (the script only), because a statement parser need not b
 delimiter-respecting on input it rejects; `cancel -semis` skips them, the default (C16) mode uses
 them: cancellation must behave the same when parse errors have been recorded.
 
+Corpus helper:  gen_script_cases.py --candidates <testdata-dir>   prints candidate statements
+(one per line) taken from <testdata-dir>/*/query.sql: lines ending in ';' that start with a
+statement keyword, without comments, inner ';', tabs, `INSERT ... FORMAT/VALUES`; pipe them
+through `/verif/build/cancel -filter` to obtain a corpus file.
+
 Every random choice derives from (seed, case index) through splitmix64, so case i of a given
 (seed, corpus) is the same whatever <count> is.
 """
@@ -146,12 +151,50 @@ def make_case(seed, index, corpus, with_invalid=False):
     return script, ([] if invalid else parts)
 
 
+KEYWORDS = ("SELECT", "WITH", "INSERT", "CREATE", "DROP", "ALTER", "TRUNCATE", "USE", "DESCRIBE", "DESC",
+            "SHOW", "EXPLAIN", "SET", "OPTIMIZE", "SYSTEM", "RENAME", "EXCHANGE", "EXISTS", "DETACH",
+            "ATTACH", "CHECK", "GRANT", "REVOKE", "BEGIN", "COMMIT", "ROLLBACK", "BACKUP", "RESTORE",
+            "KILL", "UPDATE", "DELETE", "UNDROP", "REPLACE", "FROM", "(")
+
+
+def candidates(testdata):
+    import glob
+    import os
+    import re
+    seen = set()
+    for f in sorted(glob.glob(os.path.join(testdata, "*", "query.sql"))):
+        try:
+            with open(f, encoding="utf-8") as fh:
+                text = fh.read()
+        except (OSError, UnicodeDecodeError):
+            continue
+        for line in text.split("\n"):
+            t = line.strip()
+            if not t.endswith(";"):
+                continue
+            t = t.rstrip(";").rstrip()
+            if not t or "\t" in t or "\r" in t or len(t) > 300:
+                continue
+            u = t.upper()
+            if not u.startswith(KEYWORDS):
+                continue
+            if re.search(r"\bINSERT\b", u) and re.search(r"\b(FORMAT|VALUES)\b", u):
+                continue
+            if ";" in t or "--" in t or "/*" in t or "#" in t or t in seen:
+                continue
+            seen.add(t)
+            sys.stdout.write(t + "\n")
+    return 0
+
+
 def hx(s):
     b = s.encode("utf-8")
     return b.hex() if b else "-"
 
 
 def main(argv):
+    if len(argv) == 3 and argv[1] == "--candidates":
+        return candidates(argv[2])
     with_invalid = False
     if len(argv) == 5 and argv[4] == "--with-invalid":
         with_invalid = True
